@@ -150,12 +150,13 @@ type X struct {
 	gnet.BuiltinEventEngine
 	cfg caseCfg
 
-	mu      sync.Mutex
-	cond    *sync.Cond
-	events  []event
-	win     int
-	fails   [][3]string
-	lastAct atomic.Int64
+	mu          sync.Mutex
+	cond        *sync.Cond
+	closeChecks sync.WaitGroup // registration results whose channel-closure check is still running
+	events      []event
+	win         int
+	fails       [][3]string
+	lastAct     atomic.Int64
 
 	// engine
 	eng        gnet.Engine
@@ -960,6 +961,9 @@ func (x *X) collect(k int, ch <-chan gnet.RegisteredResult) {
 			x.fail("Register", "channel-closed-without-result", fmt.Sprintf("worker %d", k))
 			return
 		}
+		// the case does not end before the "channel is closed after the one result" check below has finished
+		x.closeChecks.Add(1)
+		defer x.closeChecks.Done()
 		cls := "conn"
 		if v.Err != nil {
 			cls = "err"
